@@ -630,6 +630,27 @@ func run(c *mon.Ctx) {
 				c.Fail("equal:bitflip", fmt.Sprintf("packets that differ in bit %d (byte %d) compare equal", bit, bit>>3), wit{Op: "Equal", Before: mon.Hex(a[:]), After: mon.Hex(b[:])})
 			}
 		}
+		// the same for packets that lie somewhere inside a larger buffer (a
+		// read buffer cut into packets): every position modulo 16, both sides
+		bufA, bufB := make([]byte, 188+32), make([]byte, 188+32)
+		for off := 0; off < 16; off++ {
+			va := (*packet.Packet)(bufA[off : off+188])
+			vb := (*packet.Packet)(bufB[(off*7+3)%16 : (off*7+3)%16+188])
+			*va, *vb = a, a
+			if !packet.Equal(va, vb) || !vb.Equals(va) {
+				c.Fail("equal:identical-inside-a-buffer", fmt.Sprintf("identical packets at offsets %d and %d of larger buffers compare unequal", off, (off*7+3)%16), wit{Op: "Equal", Before: mon.Hex(a[:])})
+			}
+			for bit := 0; bit < 1504; bit++ {
+				vb[bit>>3] ^= 1 << uint(7-bit&7)
+				if packet.Equal(va, vb) || packet.Equal(vb, va) || va.Equals(&b) != (*va == b) {
+					c.Fail("equal:bitflip-inside-a-buffer", fmt.Sprintf("packets at offsets %d and %d of larger buffers that differ in bit %d (byte %d) compare equal", off, (off*7+3)%16, bit, bit>>3), wit{Op: "Equal", Before: mon.Hex(va[:]), After: mon.Hex(vb[:])})
+					bit = 1504
+				}
+				*vb = a
+			}
+			c.Count("equal.buffer_offsets")
+		}
+		c.Eval(16 * 1504)
 		// two-byte differences with the same XOR pattern (differences must not cancel), every offset pair
 		pat := byte(1) << uint(i%8)
 		if i%3 == 0 {
